@@ -691,8 +691,13 @@ func tableSnapConc(tr *tracer.T, rng *rand.Rand, nUpd int) {
 	for u := 0; u < nUpd; u++ {
 		k := []byte(fmt.Sprintf("k%d", rng.Intn(nk)))
 		c := m.Cmd{T: "PUT", K: k, V: []byte{byte(u), byte(u >> 8)}}
-		if u%9 == 4 {
+		switch u % 9 {
+		case 4:
 			c = m.Cmd{T: "DEL", K: k}
+		case 2, 6:
+			// a blind write followed by commands that read inside the apply batch: the whole entry is one atomic step
+			c = m.Cmd{T: "SEQ", Cmds: []m.Cmd{{T: "PUT", K: k, V: []byte{byte(u)}}, {T: "PUT", K: []byte("kx"), V: []byte{byte(u)}, Prev: true},
+				{T: "TXN", Succ: []m.Op{{T: "put", K: []byte("ky"), V: []byte{byte(u)}}, {T: "del", K: k, Prev: true}}}}}
 		}
 		r.update(tr, []logEntry{{I: uint64(u + 2), LI: -1, C: c}})
 	}
